@@ -135,6 +135,7 @@ func RunPlan(t *testing.T, e *Engine, plan interface{}) *Result {
 		synctest.Test(t, func(t *testing.T) {
 			rc := &RunCtx{T: t, Seed: seed, Log: &EventLog{}, St: res.St, Start: time.Now()}
 			ResetTxCounter()
+			xsimrt.ResetRun()
 			hooks := &xsimrt.H{MapSeed: 0}
 			hooks.Go = func(site string, f func()) bool {
 				rc.BG = append(rc.BG, BGTask{Site: site, F: f})
@@ -283,11 +284,25 @@ func Search(t *testing.T, e *Engine) {
 	}
 	defer write()
 	failed := false
+	genIdx, skipLo, skipHi := 0, 0, -1
+	fmt.Sscanf(os.Getenv("XSIM_SKIP_EXEC"), "%d-%d", &skipLo, &skipHi)
 	prop := func(rt *rapid.T) {
 		if !failed && (time.Since(start).Seconds() > budget || out.Runs >= maxRuns) {
 			return // budget exhausted: remaining checks pass trivially
 		}
 		plan := e.Gen(rt, tier)
+		// execute exactly what a replay file would hold: the plan after a trip through its serialised form
+		// (a drawn string that is not valid UTF-8 used to change on the way and the replay diverged)
+		if pj, err := json.Marshal(plan); err == nil {
+			p2 := e.NewPlan()
+			if json.Unmarshal(pj, p2) == nil {
+				plan = p2
+			}
+		}
+		genIdx++
+		if skipLo <= genIdx && genIdx <= skipHi && !failed {
+			return // debugging aid (XSIM_SKIP_EXEC=lo-hi): the plan is drawn but not executed
+		}
 		res := RunPlan(t, e, plan)
 		if res.Panic != "" {
 			out.Panic = res.Panic
@@ -341,6 +356,20 @@ func Replay(t *testing.T, e *Engine, path string) {
 	plan := e.NewPlan()
 	if err := json.Unmarshal(rf.Plan, plan); err != nil {
 		t.Fatalf("replay: bad plan: %v", err)
+	}
+	// XSIM_REPLAY_REPEAT=n: execute the plan n times in this process first (isolation test: every
+	// execution must give the same digest whatever ran before it in the process)
+	rep := 0
+	fmt.Sscan(os.Getenv("XSIM_REPLAY_REPEAT"), &rep)
+	for i := 0; i < rep; i++ {
+		p2 := e.NewPlan()
+		json.Unmarshal(rf.Plan, p2)
+		r2 := RunPlan(t, e, p2)
+		v := "none"
+		if r2.V != nil {
+			v = r2.V.Fingerprint()
+		}
+		fmt.Printf("REPLAY-REPEAT %d digest=%s violation=%s\n", i, r2.Digest, v)
 	}
 	res := RunPlan(t, e, plan)
 	if res.Panic != "" {
